@@ -725,7 +725,9 @@ func (c *zzG11Conc) badLine(rng *rand.Rand, field, kind string) (line string) {
 	case "noupstream":
 		return pick("[/example.org/]", "[/example.org/example.net/]")
 	case "domain":
-		return pick("[/exam!ple.org/]"+u, "[/ex ample.org/]"+u, "[/example..org/]"+u)
+		// RFC 3696 (#4884): no empty label, at most 63 octets per label, a
+		// top-level label that is not all-numeric.
+		return pick("[/example..org/]"+u, "[/"+strings.Repeat("x", 64)+".org/]"+u, "[/example.123/]"+u)
 	case "notarpa":
 		return pick("[/example.org/]"+u, "[/lan/]"+u)
 	case "publicarpa":
@@ -1186,4 +1188,414 @@ func TestZZVerifG11Replay(t *testing.T) {
 
 	total["ms"] = int(time.Since(t0).Milliseconds())
 	w.put(map[string]any{"kind": "summary", "stats": total})
+}
+
+// ------------------------------------------------------------ trace driver
+
+// zzG11Gen generates the random universe of one recorded history: a domain
+// tree with more labels than the exhaustive universes, lists with several
+// sections, every kind of invalid line, every request shape.
+type zzG11Gen struct {
+	rng *rand.Rand
+}
+
+var (
+	zzG11Tlds   = []string{"com", "net", "test"}
+	zzG11Second = []string{"example", "corp", "a-b"}
+	zzG11Third  = []string{"www", "mail", "x1"}
+	zzG11Fourth = []string{"a", "b"}
+	zzG11Ups    = []string{"u1", "u2", "u3", "u4"}
+	zzG11RevPri = [][]string{{"arpa", "in-addr", "10"}, {"arpa", "in-addr", "192", "168"}, {"arpa", "in-addr", "192", "168", "11"}, {"arpa", "in-addr", "10", "20"}}
+)
+
+func (g *zzG11Gen) pick(ss []string) (s string) { return ss[g.rng.Intn(len(ss))] }
+
+// dom returns a random domain of the tree with depth 1..max (TLD first).
+func (g *zzG11Gen) dom(max int) (d []string) {
+	depth := 1 + g.rng.Intn(max)
+	for i, level := range [][]string{zzG11Tlds, zzG11Second, zzG11Third, zzG11Fourth} {
+		if i >= depth {
+			break
+		}
+
+		d = append(d, g.pick(level))
+	}
+
+	return d
+}
+
+func (g *zzG11Gen) subset(min int) (set []string) {
+	for {
+		set = []string{}
+		for _, u := range zzG11Ups {
+			if g.rng.Intn(3) == 0 {
+				set = append(set, u)
+			}
+		}
+
+		if len(set) >= min {
+			return set
+		}
+	}
+}
+
+// secs returns up to n sections over distinct domains (never "d" and "*.d"
+// for the same d: the documentation does not say which is more specific).
+func (g *zzG11Gen) secs(n int, doms func() []string) (secs []zzG11Sec) {
+	secs = []zzG11Sec{}
+	seen := map[string]bool{}
+	for k := g.rng.Intn(n + 1); k > 0; k-- {
+		d := doms()
+		key := strings.Join(d, ".")
+		if seen[key] {
+			continue
+		}
+
+		seen[key] = true
+		s := zzG11Sec{P: zzG11Pat{D: d, W: g.rng.Intn(3) == 0}, V: []string{}}
+		if g.rng.Intn(4) != 0 {
+			s.V = g.subset(1)
+		}
+
+		secs = append(secs, s)
+	}
+
+	sort.Slice(secs, func(i, j int) bool { return strings.Join(secs[i].P.D, ".") < strings.Join(secs[j].P.D, ".") })
+
+	return secs
+}
+
+func (g *zzG11Gen) bad(kinds []string, p int) (kind string) {
+	if g.rng.Intn(p) == 0 {
+		return g.pick(kinds)
+	}
+
+	return "ok"
+}
+
+func (g *zzG11Gen) upList() (l zzG11List) {
+	return zzG11List{Gen: g.subset(1), Secs: g.secs(5, func() []string { return g.dom(3) }),
+		Bad: g.bad([]string{"scheme", "port", "nosection", "noupstream", "domain"}, 6)}
+}
+
+func (g *zzG11Gen) fbList() (l zzG11List) {
+	if g.rng.Intn(3) == 0 {
+		return zzG11List{Gen: []string{}, Secs: []zzG11Sec{}, Bad: "ok"}
+	}
+
+	return zzG11List{Gen: g.subset(1), Secs: g.secs(2, func() []string { return g.dom(3) }),
+		Bad: g.bad([]string{"scheme", "port", "nosection", "noupstream", "domain"}, 8)}
+}
+
+func (g *zzG11Gen) ptrList() (l zzG11List) {
+	switch g.rng.Intn(6) {
+	case 0:
+		return zzG11List{Gen: []string{}, Secs: []zzG11Sec{}, Bad: "ok"}
+	case 1:
+		return zzG11List{Gen: []string{}, Secs: []zzG11Sec{}, Self: true, Bad: "ok"}
+	}
+
+	l = zzG11List{Gen: g.subset(1), Self: g.rng.Intn(4) == 0,
+		Secs: g.secs(2, func() []string { return zzG11RevPri[g.rng.Intn(len(zzG11RevPri))] }),
+		Bad:  g.bad([]string{"scheme", "port", "nosection", "notarpa", "publicarpa"}, 8)}
+	for i := range l.Secs {
+		l.Secs[i].P.W = false
+		if len(l.Secs[i].V) == 0 {
+			l.Secs[i].V = g.subset(1)
+		}
+	}
+
+	return l
+}
+
+func (g *zzG11Gen) req() (r *zzG11Req) {
+	none := zzG11List{Gen: []string{}, Secs: []zzG11Sec{}, Bad: "ok"}
+	r = &zzG11Req{Has: []string{}, Up: none, Fb: none, Boot: "-", Ptr: none}
+	var fields []string
+	switch g.rng.Intn(4) {
+	case 0:
+		fields = []string{"up", "fb", "boot", "ptr", "use"}
+	case 1:
+		fields = []string{g.pick([]string{"up", "fb", "boot", "ptr", "use", "up", "ptr", "use"})}
+	default:
+		for _, f := range []string{"up", "fb", "boot", "ptr", "use"} {
+			if g.rng.Intn(2) == 0 {
+				fields = append(fields, f)
+			}
+		}
+		if len(fields) == 0 {
+			fields = []string{"up"}
+		}
+	}
+
+	for _, f := range fields {
+		r.Has = append(r.Has, f)
+		switch f {
+		case "up":
+			r.Up = g.upList()
+		case "fb":
+			r.Fb = g.fbList()
+		case "boot":
+			r.Boot = g.pick([]string{"b1", "b2", "b1", "b2", "empty", "empty", "comment", "blank", "hostname", "scheme", "section"})
+		case "ptr":
+			r.Ptr = g.ptrList()
+		case "use":
+			r.Use = g.rng.Intn(2) == 0
+		}
+	}
+
+	return r
+}
+
+// question returns a random question and how it is to be asked.
+func (g *zzG11Gen) question() (q *zzG11Q) {
+	switch g.rng.Intn(10) {
+	case 0:
+		return &zzG11Q{K: "a", N: []string{zzG11LocalDom, zzG11LeaseHost}, C: "lanknown"}
+	case 1:
+		return &zzG11Q{K: "a", N: []string{zzG11LocalDom, g.pick([]string{"nobody", "printer", "www"})}, C: "lanunknown"}
+	case 2:
+		ip := []netip.Addr{zzG11LeaseIP, zzG11HostsIP}[g.rng.Intn(2)]
+
+		return &zzG11Q{K: "ptr", N: zzG11RevLabels(ip), C: "privknown"}
+	case 3, 4:
+		ip := netip.AddrFrom4([4]byte{[]byte{10, 192}[g.rng.Intn(2)], 168, byte([]int{11, 20, 0}[g.rng.Intn(3)]), byte(20 + g.rng.Intn(200))})
+		if ip.As4()[0] == 10 {
+			ip = netip.AddrFrom4([4]byte{10, byte([]int{20, 0, 99}[g.rng.Intn(3)]), byte(g.rng.Intn(4)), byte(20 + g.rng.Intn(200))})
+		}
+
+		return &zzG11Q{K: "ptr", N: zzG11RevLabels(ip), C: "privunknown"}
+	case 5:
+		ip := netip.AddrFrom4([4]byte{byte([]int{8, 1, 193}[g.rng.Intn(3)]), 8, 4, byte(1 + g.rng.Intn(200))})
+
+		return &zzG11Q{K: "ptr", N: zzG11RevLabels(ip), C: "pub"}
+	default:
+		d := g.dom(4)
+		if g.rng.Intn(5) == 0 {
+			d = append(d, g.pick([]string{"deep", "q"}))
+		}
+
+		return &zzG11Q{K: "a", N: d, C: "plain"}
+	}
+}
+
+func zzG11RevLabels(ip netip.Addr) (n []string) {
+	b := ip.As4()
+
+	return []string{"arpa", "in-addr", fmt.Sprint(b[0]), fmt.Sprint(b[1]), fmt.Sprint(b[2]), fmt.Sprint(b[3])}
+}
+
+// zzG11History records one history on a fresh rig.
+func zzG11History(h int, ip netip.Addr, seed int64, nsteps int) (lines []map[string]any, err error) {
+	rng := rand.New(rand.NewSource(seed*1000003 + int64(h)*7907))
+	g := &zzG11Gen{rng: rng}
+	mode := []UpstreamMode{UpstreamModeLoadBalance, UpstreamModeLoadBalance, UpstreamModeParallel}[rng.Intn(3)]
+	rig, err := zzG11NewRig(ip, rng, mode)
+	if err != nil {
+		return nil, err
+	}
+	defer rig.close()
+
+	conc := zzG11NewConc(rig, seed*7919+int64(h))
+	sys := []string{}
+	if rng.Intn(2) == 0 {
+		sys = g.subset(1)[:1]
+	}
+
+	for _, u := range sys {
+		rig.sys.addrs = append(rig.sys.addrs, rig.mocks[zzG11UpIdx(u)].addr)
+	}
+	if rng.Intn(2) == 0 {
+		rig.sys.addrs = append(rig.sys.addrs, rig.self())
+	}
+
+	none := zzG11List{Gen: []string{}, Secs: []zzG11Sec{}, Bad: "ok"}
+	up0 := zzG11List{Gen: []string{"u1"}, Secs: []zzG11Sec{}, Bad: "ok"}
+	if err = rig.start(conc.list("up", &up0)); err != nil {
+		return nil, err
+	}
+
+	// reg maps the text of every list rendered in this history to its
+	// abstract value: the abstraction function for dns_info.
+	reg := map[string]map[string]zzG11List{"up": {}, "fb": {}, "ptr": {}}
+	note := func(field string, l zzG11List) {
+		reg[field][strings.Join(conc.list(field, &l), "\n")] = l
+	}
+	note("up", up0)
+	note("fb", none)
+	note("ptr", none)
+	bootReg := map[string]string{}
+	for _, tok := range []string{"b1", "b2", "default"} {
+		bootReg[strings.Join(conc.boot(tok), "\n")] = tok
+	}
+
+	lines = append(lines, map[string]any{"k": "reset", "h": h, "sys": sys, "concrete": fmt.Sprintf("mode=%s self=%s os=%v", mode, rig.self(), rig.sys.addrs)})
+	down := map[string]bool{}
+	for n := 0; n < nsteps; n++ {
+		switch x := rng.Intn(10); {
+		case x < 2:
+			req := g.req()
+			if req.has("up") {
+				note("up", req.Up)
+			}
+			if req.has("fb") {
+				note("fb", req.Fb)
+			}
+			if req.has("ptr") {
+				note("ptr", req.Ptr)
+			}
+
+			body := conc.body(req)
+			code, text := rig.setConfig(body)
+			info, ierr := rig.info()
+			if ierr != nil {
+				return nil, ierr
+			}
+
+			var infobad []string
+			abs := zzG11Cfg{Use: info.Use}
+			for _, f := range []struct {
+				name  string
+				lines []string
+				dst   *zzG11List
+			}{{"up", info.Up, &abs.Up}, {"fb", info.Fb, &abs.Fb}, {"ptr", info.Ptr, &abs.Ptr}} {
+				l, ok := reg[f.name][strings.Join(f.lines, "\n")]
+				if !ok {
+					infobad = append(infobad, fmt.Sprintf("%s reported as %q, which was never sent", f.name, f.lines))
+					l = none
+				}
+				*f.dst = l
+			}
+
+			var ok bool
+			if abs.Boot, ok = bootReg[strings.Join(info.Boot, "\n")]; !ok {
+				infobad = append(infobad, fmt.Sprintf("bootstrap_dns reported as %q", info.Boot))
+				abs.Boot = "?"
+			}
+
+			if !rig.srv.IsRunning() {
+				infobad = append(infobad, "the DNS server is not running")
+			}
+
+			def := []string{}
+			for _, a := range info.Def {
+				found := false
+				for i := 1; i <= zzG11Mocks; i++ {
+					if rig.mocks[i].addr.String() == a {
+						def = append(def, fmt.Sprintf("u%d", i))
+						found = true
+					}
+				}
+				if !found {
+					infobad = append(infobad, "default_local_ptr_upstreams reports "+a)
+				}
+			}
+
+			bj, _ := json.Marshal(body)
+			lines = append(lines, map[string]any{"k": "set", "h": h, "req": req, "code": code, "info": abs, "def": def,
+				"infobad": strings.Join(infobad, "; "), "concrete": fmt.Sprintf("POST dns_config %s -> %d %s", bj, code, text)})
+			if !rig.srv.IsRunning() {
+				// Nothing more can be observed on a stopped server.
+				return lines, nil
+			}
+		case x < 4:
+			u := g.pick(zzG11Ups)
+			down[u] = !down[u]
+			rig.mocks[zzG11UpIdx(u)].setDown(down[u])
+			lines = append(lines, map[string]any{"k": "down", "h": h, "u": u, "on": down[u]})
+		default:
+			q := g.question()
+			loc, cli := "local", zzG11LocalCli
+			if rng.Intn(4) == 0 {
+				loc, cli = "ext", zzG11ExtCli
+			}
+
+			fqdn, qt := conc.name(q, n)
+			obs := rig.ask(fqdn, qt, cli)
+			rcv := []string{}
+			for _, i := range obs.Rcv {
+				rcv = append(rcv, fmt.Sprintf("u%d", i))
+			}
+
+			by := ""
+			if obs.By != 0 {
+				by = fmt.Sprintf("u%d", obs.By)
+			}
+
+			lines = append(lines, map[string]any{"k": "ask", "h": h, "loc": loc, "q": q,
+				"obs": map[string]any{"rcv": rcv, "cls": obs.Class, "by": by},
+				"concrete": fmt.Sprintf("%s %s from %s -> %+v", fqdn, dns.TypeToString[qt], cli, obs)})
+		}
+	}
+
+	return lines, nil
+}
+
+func TestZZVerifG11Trace(t *testing.T) {
+	w := zzNewWriter(t, "VERIF_OUT")
+	defer w.close()
+
+	n, nsteps, workers := 40, 40, 16
+	if v := os.Getenv("VERIF_G11_HISTORIES"); v != "" {
+		_, _ = fmt.Sscanf(v, "%d", &n)
+	}
+	if v := os.Getenv("VERIF_G11_STEPS"); v != "" {
+		_, _ = fmt.Sscanf(v, "%d", &nsteps)
+	}
+	if v := os.Getenv("VERIF_G11_WORKERS"); v != "" {
+		_, _ = fmt.Sscanf(v, "%d", &workers)
+	}
+
+	var hs []int
+	if v := os.Getenv("VERIF_G11_ONLY"); v != "" {
+		for _, f := range strings.Split(v, ",") {
+			var h int
+			if _, err := fmt.Sscanf(f, "%d", &h); err == nil {
+				hs = append(hs, h)
+			}
+		}
+	} else {
+		for h := 0; h < n; h++ {
+			hs = append(hs, h)
+		}
+	}
+
+	seed := zzSeed()
+	out := make([][]map[string]any, len(hs))
+	errs := make([]error, len(hs))
+	ch := make(chan int)
+	wg := &sync.WaitGroup{}
+	for k := 0; k < workers; k++ {
+		wg.Add(1)
+		go func(k int) {
+			defer wg.Done()
+
+			ip := netip.AddrFrom4([4]byte{127, 0, zzG11Net(), byte(101 + k)})
+			for i := range ch {
+				for attempt := 0; attempt < 3; attempt++ {
+					out[i], errs[i] = zzG11History(hs[i], ip, seed, nsteps)
+					if errs[i] == nil {
+						break
+					}
+				}
+			}
+		}(k)
+	}
+	for i := range hs {
+		ch <- i
+	}
+	close(ch)
+	wg.Wait()
+
+	for i := range hs {
+		if errs[i] != nil {
+			t.Logf("history %d: %v", hs[i], errs[i])
+
+			continue
+		}
+
+		for _, ln := range out[i] {
+			w.put(ln)
+		}
+	}
 }
